@@ -99,17 +99,36 @@ contract('parso.python.diff._get_next_leaf_if_indentation', params={'leaf': 'ref
          loops={0: dict(invariant=['implies(leaf is not None, is_leaf(leaf) and old(leaf) is not None and root(leaf) is root(old(leaf)) and '
                                    'lo(leaf) >= lo(old(leaf)))', 'implies(old(leaf) is None, leaf is None)'],
                         decreases='ite(leaf is None, 0, hi(root(leaf)) - lo(leaf) + 1)')}, **NAVT)
+# EXISTS_ND: some leaf at or before `leaf` is not a DEDENT error leaf (true of every tokenizer output: a DEDENT is never the
+# first token); under it the walk finds a leaf, which is the nearest one: everything after it up to `leaf` is a DEDENT
+def exists_nd(of):
+    return ('exists(lambda q: q is not None and is_leaf(q) and root(q) is root(%s) and lo(q) <= lo(%s) and not %s, '
+            'kinds=dict(q="ref:Leaf"))' % (of, of, DED % ('q', 'q')))
+
+
+def all_ded_between(a, b, rt):
+    return ('forall(lambda k: implies(lo(%s) < k and k <= lo(%s), %s), trigger=lambda k: leaf_at(root(%s), k))'
+            % (a, b, DED % ('leaf_at(root(%s), k)' % rt, 'leaf_at(root(%s), k)' % rt), rt))
+
+
+NAVL = dict(theories=['tree', 'leafnum'], props=['C04'])
 contract('parso.python.diff._skip_dedent_error_leaves', params={'leaf': 'ref:Leaf'}, returns='ref:Leaf',
          requires=['implies(leaf is not None, is_leaf(leaf))'],
          ensures=['implies(leaf is None, result is None)',
                   'implies(result is not None, is_leaf(result) and root(result) is root(leaf) and lo(result) <= lo(leaf) and not '
                   + DED % ('result', 'result') + ')',
                   # a leaf that is not a DEDENT error leaf is returned itself
-                  'implies(leaf is not None and not ' + DED % ('leaf', 'leaf') + ', result is leaf)'],
+                  'implies(leaf is not None and not ' + DED % ('leaf', 'leaf') + ', result is leaf)',
+                  # it is the nearest one, and it exists whenever there is one at all
+                  'implies(result is not None, %s)' % all_ded_between('result', 'leaf', 'leaf'),
+                  'implies(leaf is not None and %s, result is not None)' % exists_nd('leaf')],
          loops={0: dict(invariant=['implies(leaf is not None, is_leaf(leaf) and old(leaf) is not None and root(leaf) is root(old(leaf)) and '
                                    'lo(leaf) <= lo(old(leaf)))', 'implies(old(leaf) is None, leaf is None)',
-                                   'implies(old(leaf) is not None and not ' + DED % ('old(leaf)', 'old(leaf)') + ', leaf is old(leaf))'],
-                        decreases='ite(leaf is None, 0, lo(leaf) - lo(root(leaf)) + 1)')}, **NAVT)
+                                   'implies(old(leaf) is not None and not ' + DED % ('old(leaf)', 'old(leaf)') + ', leaf is old(leaf))',
+                                   'implies(leaf is not None, %s)' % all_ded_between('leaf', 'old(leaf)', 'old(leaf)'),
+                                   'implies(leaf is None and old(leaf) is not None, not %s)' % exists_nd('old(leaf)'),
+                                   'implies(leaf is not None and %s, %s)' % (exists_nd('old(leaf)'), exists_nd('leaf'))],
+                        decreases='ite(leaf is None, 0, lo(leaf) - lo(root(leaf)) + 1)')}, **NAVL)
 
 
 # ---- C11: PythonBaseNode.get_name_of_position: the first name leaf (in source order) below self whose range contains the
@@ -140,3 +159,17 @@ contract('parso.python.tree.PythonMixin.get_name_of_position',
                   'implies(result is None, %s)' % _none_before('hi(self) + 1')],
          loops={0: dict(invariant=[_none_before('ite(_i == nch(self), hi(self) + 1, lo(child(self, _i)))')], len_stable=True)},
          decreases='height(self)', **NP)
+
+
+# ---- _ends_with_newline: looks at the nearest leaf that is not a DEDENT error leaf (it exists under EXISTS_ND): true iff
+# that leaf is a newline (or an error leaf made of a NEWLINE token), or the given suffix ends in a line break
+def _is_nl(x):
+    return "((%s.type == 'error_leaf' and %s.token_type.lower() == 'newline') or (%s.type != 'error_leaf' and %s.type == 'newline'))" % (x, x, x, x)
+
+
+NEAREST_NL = ('exists(lambda q: q is not None and is_leaf(q) and root(q) is root(leaf) and lo(q) <= lo(leaf) and not %s and %s and %s, '
+              'kinds=dict(q="ref:Leaf"))' % (DED % ('q', 'q'), all_ded_between('q', 'leaf', 'leaf'), _is_nl('q')))
+contract('parso.python.diff._ends_with_newline', params={'leaf': 'ref:Leaf', 'suffix': 'str'}, returns='bool',
+         requires=['leaf is not None', 'is_leaf(leaf)', exists_nd('leaf')],
+         ensures=['result == (%s or suffix.endswith("\\n") or suffix.endswith("\\r"))' % NEAREST_NL],
+         **NAVL)
